@@ -3,7 +3,7 @@ from harness import family_check as F
 
 
 def run(ctx):
-    F.run_family_check(ctx, "C03", 300, 2500)
+    F.run_family_check(ctx, "C03", 300, 2500, mc=[("MC_AdapterCutting", "MC_AdapterCutting.cfg", "MC_AdapterCutting_thorough.cfg")])
 
 
 replay = F.replay
